@@ -41,7 +41,7 @@ func (s *Server) Completion(ctx context.Context, params *protocol.CompletionPara
 	var result *analyzer.AnalysisResult
 
 	if resolved := s.getWorkspaceResolved(params.TextDocument.URI); resolved != nil {
-		result = s.analyzer.AnalyzeResolved(resolved)
+		result = s.analyzer.AnalyzeResolved(s.withDocument(resolved, params.TextDocument.URI, doc))
 	} else {
 		journal, _ := parser.Parse(doc)
 		result = s.analyzer.Analyze(journal)
